@@ -1,6 +1,7 @@
 package rules
 
 import (
+	"go/constant"
 	"fmt"
 	"go/token"
 
@@ -37,8 +38,8 @@ func liveGuards(b *ssa.BasicBlock) []core.Guard {
 		}
 		nt, pt := livePreds(t)
 		nf, pf := livePreds(f)
-		td := nt == 1 && pt == d && (t == b || t.Dominates(b))
-		fd := nf == 1 && pf == d && (f == b || f.Dominates(b))
+		td := nt == 1 && pt == d && (t == b || t.Dominates(b) || liveDominates(t, b))
+		fd := nf == 1 && pf == d && (f == b || f.Dominates(b) || liveDominates(f, b))
 		if td && !fd {
 			out = append(out, core.Guard{Cond: iff.Cond, Pos: true, If: iff})
 		} else if fd && !td {
@@ -47,6 +48,34 @@ func liveGuards(b *ssa.BasicBlock) []core.Guard {
 	}
 	// plus what a tested merge implies (an error handed up by an expanded helper; see core.Guards)
 	return core.ThreadGuards(out)
+}
+
+// liveDominates: every path from the entry to b that runs through no process-ending block passes through a
+// (after `if err != nil { usage(); os.Exit(2) }` written inside an expanded helper the exit block still has
+// an edge to the code that follows, which plain dominance counts).
+func liveDominates(a, b *ssa.BasicBlock) bool {
+	fn := b.Parent()
+	if len(fn.Blocks) == 0 || a == fn.Blocks[0] {
+		return a == fn.Blocks[0]
+	}
+	seen := map[*ssa.BasicBlock]bool{}
+	stack := []*ssa.BasicBlock{fn.Blocks[0]}
+	for len(stack) > 0 {
+		x := stack[len(stack)-1]
+		stack = stack[:len(stack)-1]
+		if seen[x] || x == a {
+			continue
+		}
+		seen[x] = true
+		if x == b {
+			return false
+		}
+		if blockExits(x) {
+			continue
+		}
+		stack = append(stack, x.Succs...)
+	}
+	return true
 }
 
 // checkCLIGuards: the conditions under which the CLI does what it does (R17.4/R17.3):
@@ -200,7 +229,40 @@ func checkCLIGuards(p *core.Program, r *core.Report, d *ssa.Function, retStatus 
 					for i, pb := range b.Preds {
 						_ = i
 						iff, isIf := pb.Instrs[len(pb.Instrs)-1].(*ssa.If)
-						if !isIf || entropyFlag(iff.Cond) == "" || pb.Succs[0] != b {
+						if !isIf || pb.Succs[0] != b {
+							okAll = false
+							continue
+						}
+						if entropyFlag(iff.Cond) != "" {
+							continue
+						}
+						// the disjunction of the flags evaluated into a bool first (`want := *a || *b; if want {`):
+						// a merge whose every edge is `true` coming from the true edge of a flag test, or a flag's value
+						okPhi := false
+						if phi, isPhi := iff.Cond.(*ssa.Phi); isPhi {
+							okPhi = true
+							nFlags := map[string]bool{}
+							for j, e := range phi.Edges {
+								pp := phi.Block().Preds[j]
+								if n := entropyFlag(e); n != "" {
+									nFlags[n] = true
+									continue
+								}
+								cst, isC := e.(*ssa.Const)
+								pif, isIf2 := pp.Instrs[len(pp.Instrs)-1].(*ssa.If)
+								if isC && cst.Value != nil && cst.Value.Kind() == constant.Bool && constant.BoolVal(cst.Value) && isIf2 && pp.Succs[0] == phi.Block() {
+									if n := entropyFlag(pif.Cond); n != "" {
+										nFlags[n] = true
+										continue
+									}
+								}
+								okPhi = false
+							}
+							if len(nFlags) != nEntropyFlags {
+								okPhi = false
+							}
+						}
+						if !okPhi {
 							okAll = false
 						}
 					}
@@ -295,6 +357,9 @@ func checkCLIHelperGuards(p *core.Program, r *core.Report) {
 	if wl := cli.wlGen; wl != nil {
 		name := core.FuncName(wl)
 		fileFlag := func(v ssa.Value) bool {
+			if a := actualArg(p, v); a != nil {
+				v = a // the builder is given the flag's value by its one caller
+			}
 			ld, ok := v.(*ssa.UnOp)
 			if !ok || ld.Op != token.MUL {
 				return false
